@@ -396,6 +396,12 @@ def foreign_events(ctx):
     corpus.append(('compressed packet (ZIP) with three packets', 8, b'\x01' + __import__('zlib').compress(nest)[2:-4]))
     corpus.append(('compressed packet (ZLIB) with three packets', 8, b'\x02' + __import__('zlib').compress(nest)))
     corpus.append(('compressed packet (BZ2) with three packets', 8, b'\x03' + _bz2.compress(nest)))
+    # GNU S2K extension (usage 254 / 255, specifier 101): the dummy without secret (mode 1) and the smartcard stub (mode 2) with a serial
+    # number of 16, 4 and ZERO octets
+    for usage_ in (254, 255):
+        corpus.append(('foreign gnu dummy secret key usage %d' % usage_, 5, fk.pub_body + bytes([usage_, 0, 101, 0]) + b'GNU\x01'))
+        for serial_ in (bytes(range(16)), b'\x01\x02\x03\x04', b''):
+            corpus.append(('foreign gnu card stub usage %d serial of %d octets' % (usage_, len(serial_)), 5, fk.pub_body + bytes([usage_, 0, 101, 0]) + b'GNU\x02' + bytes([len(serial_)]) + serial_))
     corpus.append(('foreign pkesk wildcard recipient', 1, b'\x03' + bytes(8) + b'\x01' + build.mpi(0x1234567890abcdef1234567890abcdef)))
     for spec_, s2k_ in ((0, bytes([0, 8])), (1, bytes([1, 2]) + bytes(range(8))), (3, bytes([3, 10]) + bytes(range(8)) + b'\x60')):
         corpus.append(('foreign skesk s2k %d' % spec_, 3, b'\x04\x09' + s2k_))
